@@ -23,6 +23,7 @@ type SpecEnv struct {
 	locals func(name string) (Val, bool)
 	headEnv *SpecEnv // environment at the loop head of the current iteration (inv-keep only)
 	nowSt   *State   // the non-old state (for now() inside old())
+	loopEntry *State // state when the current loop was entered (loop invariants only)
 }
 
 func (ex *Exec) newEnv(st, old *State, fr *Frame) *SpecEnv {
@@ -440,6 +441,27 @@ func (env *SpecEnv) call(x *SCall) Val {
 			}
 			sub.st = env.old
 			return sub.eval(x.Args[0])
+		case "loopentry":
+			// value when the loop was entered (before its first iteration)
+			if env.loopEntry == nil {
+				return env.eval(x.Args[0])
+			}
+			sub := *env
+			sub.st = env.loopEntry
+			return sub.eval(x.Args[0])
+		case "mapbool":
+			// mapbool(m, k): value of a map[K]bool at k (false when absent)
+			m := env.eval(x.Args[0])
+			k := env.eval(x.Args[1])
+			if m.T == nil {
+				sfail("mapbool of spec value")
+			}
+			mtn := typeName(m.T)
+			has := Select(Select(env.st.get(ex.mapHeap(mtn, "has", SBool)), m.one()), refOf(k))
+			lf := Leaf{"", SBool, nil, "bool"}
+			hv := ex.heapInfo("M", mtn, "val", lf, "M:"+mtn, 2)
+			val := Select(Select(env.st.get(hv), m.one()), refOf(k))
+			return spec1(And(Ne(m.one(), Int(0)), has, val))
 		case "now":
 			sub := *env
 			if env.nowSt != nil {
@@ -623,7 +645,7 @@ func (env *SpecEnv) callPred(pd *PredDef, recv *Val, args []SExpr) Val {
 	if len(args) != len(pd.Params) {
 		sfail("predicate %s expects %d arguments", pd.Name, len(pd.Params))
 	}
-	sub := &SpecEnv{ex: env.ex, st: env.st, old: env.old, fr: env.fr, vars: map[string]Val{}, pkg: env.pkg, depth: env.depth + 1, nowSt: env.nowSt, headEnv: env.headEnv, locals: nil}
+	sub := &SpecEnv{ex: env.ex, st: env.st, old: env.old, fr: env.fr, vars: map[string]Val{}, pkg: env.pkg, depth: env.depth + 1, nowSt: env.nowSt, headEnv: env.headEnv, locals: nil, loopEntry: env.loopEntry}
 	if pd.Pkg != "" {
 		sub.pkg = pd.Pkg
 	}
